@@ -22,11 +22,50 @@ def _validators():
 
 
 class DocsDriver(ed.Driver):
+    """Extra ingredients for the oracle-only families (not in the engine model):
+       case["sub_raise"] = {"on": kind, "nth": n, "ignore": bool}  the recording subscriber raises EUser2 after it
+                           has recorded the n-th document of that kind (so a consumer HAS seen the document);
+                           RE.ignore_callback_exceptions = ignore
+       inject {"at": k, "req": "update", "dev": i}                 the monitored fake signal i changes: every
+                           callback subscribed to it is called (the bundler's monitor closure reads the device)
+       faults [[dev, "clear_sub", nth, kind]]                      (shared mechanism) clear_sub() fails"""
+
     def __init__(self, case):
         super().__init__(case)
         self.docinfo = []
+        self._kind_count = {}
+        self._configured = False
+
+    def on_msg(self, m):
+        if not self._configured:
+            self._configured = True
+            sr = self.case.get("sub_raise")
+            if sr is not None:
+                self.RE.ignore_callback_exceptions = bool(sr.get("ignore", False))
+        return super().on_msg(m)
+
+    def fire(self, inj):
+        if inj.get("req") == "update":
+            dev = self.devs[inj["dev"]]
+            self.sched.append(["inject", "update", inj["dev"]])
+            for cb in list(dev.subs):
+                try:
+                    cb()
+                except Exception as e:  # a raising consumer must not kill the driver's loop callback
+                    self.sched.append(["update_raised", ed.exn_name(e)])
+            return
+        return super().fire(inj)
 
     def on_doc(self, name, doc):
+        self._on_doc(name, doc)
+        sr = self.case.get("sub_raise")
+        if sr is not None and sr.get("on") == name:
+            n = self._kind_count.get(name, 0)
+            self._kind_count[name] = n + 1
+            if n == sr.get("nth", 0):
+                raise ed.EUser2("subscriber rejects the %s document" % name)
+
+    def _on_doc(self, name, doc):
         super().on_doc(name, doc)
         info = {"name": name, "uid": doc.get("uid")}
         for k in ("run_start", "descriptor"):
@@ -50,6 +89,8 @@ def run_case(case, timeout=20.0):
     import bluesky.run_engine  # noqa: F401
     import bluesky.plans  # noqa: F401
     _validators()
+    import warnings
+    warnings.simplefilter("ignore")      # "the error will be ignored ..." of ignored callback exceptions
     d = DocsDriver(case)
     box = {}
 
@@ -68,7 +109,7 @@ def run_case(case, timeout=20.0):
     return box["out"]
 
 
-def check_docinfo(docinfo):
+def check_docinfo(docinfo, strict_refs=True):
     """uid uniqueness, references to earlier documents of the same run, schema verdicts -> None | message"""
     seen = set()
     starts = set()
